@@ -613,7 +613,7 @@ def check_block(case):
     r = float(np.sqrt(np.sum(v * v)))
     u = v / r
     want = s2 * np.outer(u, u) + (s1 - s1rc) / r * (np.eye(d) - np.outer(u, u))
-    tol = 1e-12 * (abs(s2) + abs(s1 - s1rc) / r)
+    tol = 1e-12 * (abs(s2) + abs(s1 - s1rc) / r) + 1e-300   # floor: the relative term underflows for tiny s
     bad = np.abs(Bi - want) > tol
     require(not bad.any(),
             lambda: f"pair_matrix block centred on i: got {Bi.tolist()}, want s2 uu^T + (s1-s1rc)(1-uu^T)/r = "
